@@ -27,8 +27,11 @@ EXPRS = {
 }
 
 
-def step(o, cl=None):
-    return {"o": o, "cl": cl}
+def step(o, cl=None, o2=None):
+    """o2: outcome when the scenario runs a second time (scenario_autoretry); text-bound outcomes stay the same"""
+    if o in ("undefined", "badarg") or o2 is None:
+        o2 = o if o in ("undefined", "badarg") else "pass"
+    return {"o": o, "cl": cl, "o2": o2}
 
 
 def scenario(steps, tags=()):
@@ -56,8 +59,8 @@ def _bg(bg):
     return [s if isinstance(s, dict) else step(s) for s in bg]
 
 
-def cfg(expr="true", stop=False, dry=False, show_skipped=True, cont=False, capture=(True, True, True), wip_mode=False):
-    return {"expr": expr, "stop": stop, "dry": dry, "show_skipped": show_skipped, "cont": cont,
+def cfg(expr="true", stop=False, dry=False, show_skipped=True, cont=False, capture=(True, True, True), wip_mode=False, retry=False):
+    return {"expr": expr, "stop": stop, "dry": dry, "show_skipped": show_skipped, "cont": cont, "retry": bool(retry and not dry),
             "cap_out": capture[0], "cap_err": capture[1], "cap_log": capture[2]}
 
 
@@ -83,7 +86,7 @@ def flatten(prog):
             for k, s in enumerate(lst):
                 o = s["o"]
                 cl = s.get("cl") or [0, "", False]
-                out.append({"o": o, "def": o != "undefined", "org": org, "k": k + 1,
+                out.append({"o": o, "o2": s.get("o2", o if o in ("undefined", "badarg") else "pass"), "def": o != "undefined", "org": org, "k": k + 1,
                             "cl_id": cl[0], "cl_layer": cl[1], "cl_raises": bool(cl[2])})
         return out
 
